@@ -15,8 +15,8 @@ from ._pairs import compare_all, V
 
 PID = "C09"
 LEVEL = "model_checking"
-WITNESSES = ["compositions", "cut_inside_season", "cut_at_season_jump", "overshoot_call", "dedup_edges", "final_tables_compared", "reused_instance"]
-NONTRIVIAL = ["cut_at_season_jump", "overshoot_call", "dedup_edges", "reused_instance"]
+WITNESSES = ["compositions", "cut_inside_season", "cut_at_season_jump", "overshoot_call", "dedup_edges", "final_tables_compared", "reused_instance", "call_ends_exactly_at_termination"]
+NONTRIVIAL = ["cut_at_season_jump", "overshoot_call", "dedup_edges", "reused_instance", "call_ends_exactly_at_termination"]
 
 CONFIGS = {
     "rainfed": A._b(crop="maize.1", win={"pre": 2, "seasons": 2}, word="mix"),
@@ -211,12 +211,19 @@ def run(scn):
                         continue
                     ref.after(j, keep_model=True)
                     base = ref.models[j]
-                    for k in list(range(1, N - j + 1)) + [ref.total + 5]:
+                    for k in list(range(1, N - j + 1)) + [ref.total - j, ref.total + 5]:
                         m = copy.deepcopy(base)
                         m.run_model(num_steps=k, initialize_model=False)
                         res["evals"] += 1
                         wit["dedup_edges"] = wit.get("dedup_edges", 0) + 1
-                        if k > ref.total:
+                        if k == ref.total - j:
+                            # the call's last requested step is exactly the terminating step
+                            res["transitions"] += k
+                            wit["call_ends_exactly_at_termination"] = wit.get("call_ends_exactly_at_termination", 0) + 1
+                            check_final(m, ref, res, {"from": j, "call": k, "exact": True})
+                            if canon_state(m, with_outputs=True) != ref.final_canon:
+                                res["violations"].append(V("exact-call-reaches-final-state", j, {"from": j, "call": k}, "state of the uninterrupted run", sig=["exact"]))
+                        elif k > ref.total:
                             res["transitions"] += ref.total - j
                             check_final(m, ref, res, {"from": j, "call": k})
                             if canon_state(m, with_outputs=True) != ref.final_canon:
@@ -268,7 +275,7 @@ def describe(tier):
     return {
         "rule": f"(i) ALL 2^(n-1) compositions of the first n={n} transitions into run_model(num_steps=k, initialize_model=False) calls followed by an overshooting "
                 f"call, on windows whose first days contain pre-season days, a season start, a harvest with a jump and the termination; (ii) deduplicated "
-                f"search: from the state after j steps (j=0..N={N}) every call size k in 1..N-j and an overshooting size is applied to a deep copy and must land on "
+                f"search: from the state after j steps (j=0..N={N}) every call size k in 1..N-j, the size that ends exactly on the terminating step, and an overshooting size is applied to a deep copy and must land on "
                 "the canonical state (clock + every condition field + crop copies + CO2 + all output rows) that ONE call of j+k steps reaches; plus a subset of the compositions on a model object that has ALREADY completed a run (first call re-initialises); x configurations "
                 "{rainfed, threshold, net, schedule, bunds, groundwater, off-season, 3 seasons, thermal crop}. After every non-final call results/finished flag "
                 "must be False, after the final one all four tables are bitwise those of run_model(till_termination=True).",
